@@ -206,8 +206,8 @@ pub fn prop() -> Prop {
             "the location of a result is found by pointer identity in the caller's document, independently of the path string",
         ],
         subs: vec![
-            Sub { name: "random-routes", kind: Kind::Random { f: random_routes, quick: 40_000, thorough: 1_600_000, len: 400 } },
-            Sub { name: "random-all-nodes", kind: Kind::Random { f: random_all_nodes, quick: 10_000, thorough: 400_000, len: 300 } },
+            Sub { name: "random-routes", kind: Kind::Random { f: random_routes, quick: 200_000, thorough: 4_000_000, len: 400 } },
+            Sub { name: "random-all-nodes", kind: Kind::Random { f: random_all_nodes, quick: 50_000, thorough: 1_000_000, len: 300 } },
         ],
         direct: Some(direct),
         selftest: Some(crate::rfc::selftest),
